@@ -309,7 +309,7 @@ def run(ctx):
                 if crashed:
                     for t, _ in insts:
                         ctx.case(key="%s:%d:%s" % (gname, T, t), nontrivial=True, kind="threads-%s:%d:crashed-run" % (gname, T))
-                    keep = os.path.join(vlib.VERIF, "replays", "C24", "crash_%s_%d" % (gname, T))
+                    keep = os.path.join(os.environ.get("VERIF_REPLAY_DIR", os.path.join(vlib.VERIF, "replays")), "C24", "crash_%s_%d" % (gname, T))
                     shutil.rmtree(keep, ignore_errors=True)
                     shutil.copytree(d, keep)
                     ctx.violation(sig_pref + "solve-crash",
